@@ -419,6 +419,13 @@ func redactXml(obj interface{}, path string) (xmlValue []byte, err error) {
 		base64Encode = true
 	}
 
+	// mxj skips whatever precedes the first element. A string like that
+	// is not an XML document, e.g. a JSON document with XML in one of its fields.
+	if !strings.HasPrefix(strings.TrimSpace(nextXML), "<") {
+		err = errors.New("Not an XML document")
+		return
+	}
+
 	var mv mxj.Map
 	mv, err = mxj.NewMapXml([]byte(nextXML))
 	if err != nil {
